@@ -102,8 +102,17 @@ func (e *BaseParserError) FriendlyErrorMessage() string {
 		msg.WriteString(fmt.Sprintf("location: %s", friendlyLoc))
 	}
 	msg.WriteString("\n" + e.SourceCode() + "\n")
-	pad := strings.Repeat(" ", colStart-1)
-	msg.WriteString(pad + strings.Repeat("^", colEnd-colStart+1))
+	// A token that spans lines ends in a smaller column than it starts in:
+	// underline at least the first character instead of repeating a negative
+	// number of carets.
+	padLen, caretLen := colStart-1, colEnd-colStart+1
+	if padLen < 0 {
+		padLen = 0
+	}
+	if caretLen < 1 {
+		caretLen = 1
+	}
+	msg.WriteString(strings.Repeat(" ", padLen) + strings.Repeat("^", caretLen))
 	return msg.String()
 }
 
